@@ -196,7 +196,7 @@ class FakeNode(object):
             nc.send(s, C.ERROR, C.error_body(C.E_PROTOCOL, msg), version=min(hv, v) if v < 0x40 else hv)
             return
         nc.version = v
-        entry = {'seq': sim.nlog, 't': round(sim.vnow(), 6), 'node': self.idx, 'conn': nc.label, 'stream': s,
+        entry = {'seq': sim.nlog, 'sent_seq': nc.conn.current_send_seq, 't': round(sim.vnow(), 6), 'node': self.idx, 'conn': nc.label, 'stream': s,
                  'op': req['op'], 'version': v, 'keyspace': nc.keyspace, 'flags': fr['flags']}
         if op == C.OPTIONS:
             nc.options_seen += 1
